@@ -72,6 +72,23 @@ func verifyFunc(prog *ssa.Program, specs *SpecDB, fn *ssa.Function, opts verifyO
 			e.assume(app("<", c, "alloc!0"))
 		case *types.Slice:
 			e.assume(app("<", app("s_arr", c), "alloc!0"))
+		case *types.Struct:
+			// a struct passed by value: the references it carries designate allocated objects
+			stt := p.Type().Underlying().(*types.Struct)
+			e.structSort(p.Type())
+			for i := 0; i < stt.NumFields(); i++ {
+				acc := app(structName(p.Type())+"$"+fieldName(stt, i), c)
+				switch stt.Field(i).Type().Underlying().(type) {
+				case *types.Pointer, *types.Map:
+					e.assume(app("<", acc, "alloc!0"))
+				case *types.Slice:
+					e.assume(app("<", app("s_arr", acc), "alloc!0"))
+					e.assume(app("slice_ok", acc))
+				case *types.Interface:
+					e.assume(app("<", app("i_val", acc), "alloc!0"))
+					e.assume(app("iface_ok", acc))
+				}
+			}
 		}
 		args = append(args, Val{T: c})
 	}
@@ -136,6 +153,7 @@ func verifyFunc(prog *ssa.Program, specs *SpecDB, fn *ssa.Function, opts verifyO
 	var mods []modEntry
 	if sp != nil {
 		ctx := f.ctxFor(fn, args, nil, entry, entry, "true")
+		f.declareGhosts(sp, ctx)
 		for _, rq := range sp.Requires {
 			e.assume(ctx.eval(rq.Expr).T)
 		}
@@ -299,4 +317,29 @@ func evalClauseAt(ctx *SpecCtx, c *Clause) (t string, ok bool) {
 		}
 	}()
 	return ctx.eval(c.Expr).T, true
+}
+
+// declareGhosts introduces the counting functions of a contract: cnt(0) = 0, cnt(j+1) = cnt(j) + [Body(j)].
+// The step axiom is triggered only by pairs of existing terms (no matching loop).
+func (f *Frame) declareGhosts(sp *FuncSpec, ctx *SpecCtx) {
+	e := f.e
+	if f.ghosts == nil {
+		f.ghosts = map[string]string{}
+	}
+	for _, g := range sp.Ghosts {
+		name := "ghost$" + sanitize(g.Name) + "$" + f.id
+		e.decls = append(e.decls, fmt.Sprintf("(declare-fun %s (Int) Int)", name))
+		f.ghosts[g.Name] = name
+	}
+	for _, g := range sp.Ghosts {
+		name := f.ghosts[g.Name]
+		j, k := e.fresh("j!g"), e.fresh("k!g")
+		c2 := ctx.with(map[string]SV{g.Var: intSV(j)})
+		c2.inQ = 1
+		body := c2.eval(g.Body).T
+		e.assume(eq(app(name, "0"), "0"))
+		e.assume(fmt.Sprintf("(forall ((%s Int) (%s Int)) (! (=> (and (<= 0 %s) (= %s (+ %s 1))) (= (%s %s) (+ (%s %s) (ite %s 1 0)))) :pattern ((%s %s) (%s %s)) :qid ghost_step_%s))",
+			j, k, j, k, j, name, k, name, j, body, name, j, name, k, sanitize(g.Name)))
+		e.assume(fmt.Sprintf("(forall ((%s Int)) (! (>= (%s %s) 0) :pattern ((%s %s)) :qid ghost_nonneg_%s))", j, name, j, name, j, sanitize(g.Name)))
+	}
 }
